@@ -95,3 +95,51 @@ Proof.
 Qed.
 
 End Scatter.
+
+(** The branch "same number of distributed directions" (layout.py:1297-1309, 1404-1416): the two handlers
+    distribute the same dimensions over the same communicators (possibly at different layout axes), so the
+    change of layout is a local transpose:  destView[:] = transpose(sourceView, transposition). *)
+Section Same.
+Variable V : Type.
+Variable d : nat.
+Variable N : nat -> nat.
+Variables pi ipi pi' ipi' : nat -> nat.
+Variable rank : Type.
+Variable valid : rank -> Prop.
+Variable PSa : nat -> nat.
+Variable PDa : nat -> nat.
+Variable coS : rank -> nat -> nat.
+Variable coD : rank -> nat -> nat.
+
+Hypothesis Hpi : forall a, a < d -> pi a < d /\ ipi (pi a) = a.
+Hypothesis Hipi : forall e, e < d -> ipi e < d /\ pi (ipi e) = e.
+Hypothesis Hipi' : forall e, e < d -> ipi' e < d /\ pi' (ipi' e) = e.
+Hypothesis Hsame : forall q a, valid q -> a < d ->
+  PDa (ipi' (pi a)) = PSa a /\ coD q (ipi' (pi a)) = coS q a.
+
+Variable G : list nat -> V.
+Variable src : rank -> nat -> V.
+
+Definition sm_dst (q : rank) (A' : nat) : V :=
+  let j' := unravel (mk d (sc_shD N pi' rank PDa coD q)) A' in
+  src q (ravel (mk d (sc_shS N pi rank PSa coS q)) (mk d (fun a => rd j' (ipi' (pi a))))).
+
+Theorem same_correct :
+  sc_Holds_src V d N pi ipi rank valid PSa coS G src ->
+  forall q, valid q -> forall j', inb (mk d (sc_shD N pi' rank PDa coD q)) j' ->
+  sm_dst q (ravel (mk d (sc_shD N pi' rank PDa coD q)) j') = G (sc_globD d N ipi' rank PDa coD q j').
+Proof.
+  intros HS q Hq j' Hj'.
+  unfold sm_dst. rewrite (unravel_ravel _ _ Hj').
+  pose proof (inb_mk_inv _ _ _ Hj') as Hjlt.
+  assert (Hinb : inb (mk d (sc_shS N pi rank PSa coS q)) (mk d (fun a => rd j' (ipi' (pi a))))).
+  { apply inb_mk. intros a Ha.
+    destruct (Hsame q a Hq Ha) as [E1 E2].
+    destruct (Hpi a Ha) as [Hpa _]. destruct (Hipi' _ Hpa) as [Hx Hy].
+    pose proof (Hjlt _ Hx) as H. unfold sc_shD in H. rewrite Hy, E1, E2 in H. exact H. }
+  rewrite (HS q Hq _ Hinb). f_equal.
+  unfold sc_globS, sc_globD. apply mk_ext. intros e He.
+  destruct (Hipi e He) as [Hae Hpe]. rewrite rd_mk by exact Hae.
+  destruct (Hsame q (ipi e) Hq Hae) as [E1 E2]. rewrite Hpe in E1, E2. rewrite E1, E2, Hpe. reflexivity.
+Qed.
+End Same.
